@@ -52,10 +52,50 @@ def run(chk):
     import ordfam
     densfam.c13_part(chk, quick)
     ordfam.c13_part(chk, quick)
+    long_life(chk, quick)
     chk.cov["explanation"] = "all histories of the stated shape + sampled long histories; equality with a fresh sketcher via the specification's function of the empty set"
 
 
+LL_KINDS = ["smh_f64_fnv", "smh_f32_no", "smh2_u64_fnv", "smh2_u32_xx", "ss_u16", "ss_u32", "pmh2",
+            "dens_f64", "dens_f32", "rev_f64", "rev_f32", "ord2_fnv"]
+
+
+def long_life(chk, quick):
+    """one object per kind through 140000 (400000) cycles of (items, reinit/reset); at check points - dense around 2^8 and
+    2^16 cycles and their multiples - the reused object and a new one are given the same input"""
+    build_harness("ll")
+    out = os.path.join(chk.wd, "longlife.json")
+    cycles = 140000 if quick else 400000
+    harness("ll", ["run", "out=" + out, "seed=%d" % chk.seed, "cycles=%d" % cycles, "kinds=" + ",".join(LL_KINDS)], timeout=3000)
+    nchecks = 0
+    for c in json.load(open(out))["cases"]:
+        chk.add("evaluations", c["cycles"])
+        nchecks += c["checks"]
+        tags = dict(kind="long-life", sketcher=c["kind"])
+        if c.get("panic"):
+            chk.violation(dict(tags, what="panic"), dict(kind="long-life", case=c, seed=chk.seed))
+        elif c["bad"]:
+            chk.violation(dict(tags, what="differs-from-new"), dict(kind="long-life", case=c, seed=chk.seed))
+    chk.cov["long_life_cycles"] = cycles
+    log("[C13] long life: %d kinds, one object each through %d (items, reinit) cycles, %d comparisons with a new object" % (
+        len(LL_KINDS), cycles, nchecks))
+
+
 def replay(chk, path):
+    sc = json.load(open(path))["scenario"]
+    if sc.get("kind") == "long-life":
+        build_harness("ll")
+        out = os.path.join(chk.wd, "longlife_replay.json")
+        c = sc["case"]
+        harness("ll", ["run", "out=" + out, "seed=%d" % sc["seed"], "cycles=%d" % c["cycles"], "kinds=" + c["kind"]], timeout=3000)
+        r = json.load(open(out))["cases"][0]
+        log("long life of %s: %d comparisons, %d differ%s" % (c["kind"], r["checks"], len(r["bad"]), ", panic: " + r["panic"] if r.get("panic") else ""))
+        for b in r["bad"][:2]:
+            log(json.dumps(b)[:600])
+        if r["bad"] or r.get("panic"):
+            log("VIOLATION property=C13 replay=%s" % path)
+            return 1
+        return 0
     build_harness("sk")
     r = joinfam.replay_one(chk, path, "C13")
     return 2 if r is None else r
